@@ -56,6 +56,20 @@ fn main() {
             else { add("copy", format!("{} declared may-be-uninitialised but is not Copy, variant {}", ty, v), mk(size, align, true)); }
         }
     }
+    // two data of the same type, one of them recorded wrongly (the other correctly): both must be guarded
+    for (ty, size, align, _) in [TYPES[2], TYPES[3], TYPES[8], TYPES[6]] {
+        for (wrong_first, later) in [(true, false), (false, false), (true, true), (false, true)] {
+            let wrong_a = (if later && !wrong_first { 1 } else { 0 }, ty, size, if align > 1 { align / 2 } else { align * 2 }, false);
+            let right = (if later && wrong_first { 1 } else { 0 }, ty, size, align, false);
+            let fields = if wrong_first { vec![wrong_a, right] } else { vec![right, wrong_a] };
+            let (text, req) = build(&fields, if later { 2 } else { 1 });
+            probes.push(Probe { kind: "align".into(), desc: format!("two {} data, one recorded with alignment {} (real {}), wrong one {} (later variant: {})", ty, wrong_a.3, align, if wrong_first { "first" } else { "second" }, later), req, text, tail: String::new() });
+            let wrong_s = (wrong_a.0, ty, size + 1, align, false);
+            let fields = if wrong_first { vec![wrong_s, right] } else { vec![right, wrong_s] };
+            let (text, req) = build(&fields, if later { 2 } else { 1 });
+            probes.push(Probe { kind: "size".into(), desc: format!("two {} data, one recorded with size {} (real {}), wrong one {} (later variant: {})", ty, size + 1, size, if wrong_first { "first" } else { "second" }, later), req, text, tail: String::new() });
+        }
+    }
     // auto traits (C14): records holding a non-Send / non-Sync field
     for (ty, what) in [("NS", "send"), ("NS", "sync"), ("NY", "sync"), ("NY", "send"), ("H", "send"), ("H", "sync")] {
         let (text, req) = build(&[(0, "P4", 4, 4, false), (0, ty, 8, 8, false)], 1);
